@@ -153,6 +153,19 @@ CLAIMED = {
              "selects between twins with the same contract); RecursionError / interpreter stack depth is not modelled (A8); known "
              "findings D18, D19, D8, D6, D7, D2, D1",
         design="6 C15"),
+    "C17": dict(
+        text="compute_hessian is symbolically executed (two nested symbolic loops, list specifications for the rows): entry "
+             "H[i][j] is proved to be a well-formed tree that equals, wherever the first-pass tree g_i = gradient(e, V[i]) is "
+             "regular for V[j], the partial derivative of g_i with respect to V[j], and g_i is proved (C02) to equal "
+             "d[[e]]/dV[i] on the regular set of e -- for every variable list (any order, any superset). The differentiator "
+             "contracts used for both passes are the ones proved for C02 on all inputs.",
+        note="the step from 'derivative of a tree that equals the first derivative on an open set' to 'second partial derivative' "
+             "is the analytic fact that functions agreeing on an open set have the same derivative there (stated in DESIGN.md and "
+             "the Lean table, not an SMT obligation). compile_hessian (diagonal shortcuts for vectorised sums, upper-triangle "
+             "loop with mirroring, sanitiser) is stated but NOT proved: it is covered only by the bounded stand-in "
+             "native/bounded_jacobian.py (pool x 4 variable lists x points, symmetry and second central differences), never "
+             "counted as proved; A1 real arithmetic",
+        design="6 C17"),
     "C19": dict(
         text="_sanitize_derivatives is proved over an extended-real abstraction of arrays (class finite/NaN/+Inf/-Inf per entry): "
              "every entry finite afterwards, finite entries unchanged, NaN -> 0, +-Inf -> +-1e16; and for every closure returned by "
